@@ -17,7 +17,8 @@ def RoundMsg (S : Schema) (m : Msg) : Prop :=
 /-- wire-level facts about group records of declared fields (proved for all schemas in
 `Lemmas/MsgGroup.lean`; trivially true of schemas without group fields) -/
 def GroupScanOK (S : Schema) : Prop :=
-  ∀ (f : Field) (g : Int) (sub : Msg) (rest : List Byte), f.kind = .group → g ≤ defaultRecursionLimit →
+  ∀ (mi : Nat) (f : Field) (g : Int) (sub : Msg) (rest : List Byte), (S.msg mi).find f.num = some f →
+    f.kind = .group → g ≤ defaultRecursionLimit →
     1 ≤ f.num → f.num ≤ maxValidNumber →
     cwfVal S g f (.msg sub) = true →
     decSubBytes f 3 ((encMsg S f.sub sub ++ tagBytes f.num 4) ++ rest) = some (.ok (encMsg S f.sub sub)) ∧
@@ -25,8 +26,8 @@ def GroupScanOK (S : Schema) : Prop :=
       .ok (encMsg S f.sub sub ++ tagBytes f.num 4).length
 
 /-- everything the record loop needs to know about the record of a sub-message value -/
-theorem val_msg_facts {S : Schema} (hG : GroupScanOK S) {f : Field} {g depth : Int} {dis : Bool} {sub : Msg}
-    (h1 : 1 ≤ f.num) (h2 : f.num ≤ maxValidNumber)
+theorem val_msg_facts {S : Schema} (hG : GroupScanOK S) {mi : Nat} {f : Field} {g depth : Int} {dis : Bool}
+    {sub : Msg} (hfind : (S.msg mi).find f.num = some f) (h1 : 1 ≤ f.num) (h2 : f.num ≤ maxValidNumber)
     (hg : g ≤ defaultRecursionLimit) (hwf : cwfVal S g f (.msg sub) = true) (ih : RoundMsg S sub)
     (hdepth : (depthMsg sub : Int) ≤ depth) :
     ∃ (wt : Nat) (payload body : List Byte), wt < 8 ∧ f.kind.isMessage = true ∧
@@ -44,8 +45,8 @@ theorem val_msg_facts {S : Schema} (hG : GroupScanOK S) {f : Field} {g depth : I
   · simp only [hgrp, if_true, Bool.and_eq_true, decide_eq_true_eq] at hwf2
     refine ⟨3, encMsg S f.sub sub ++ tagBytes f.num 4, encMsg S f.sub sub, by omega, hmsg, ?_, ?_, ?_, ?_, ?_, hd⟩
     · simp only [encVal, hgrp, if_true, List.append_assoc]
-    · intro rest; exact (hG f g sub rest hgrp hg h1 h2 hwf').1
-    · intro rest; exact (hG f g sub rest hgrp hg h1 h2 hwf').2
+    · intro rest; exact (hG mi f g sub rest hfind hgrp hg h1 h2 hwf').1
+    · intro rest; exact (hG mi f g sub rest hfind hgrp hg h1 h2 hwf').2
     · exact ih f.sub (g - 1) (depth - 1) dis (by omega) hwf2.2 (by omega)
     · have := tagBytes_pos f.num 4; simp only [List.length_append]; omega
   · simp only [hgrp, if_false, Bool.and_eq_true, decide_eq_true_eq] at hwf2
@@ -85,7 +86,7 @@ theorem one_ok {S : Schema} (hG : GroupScanOK S) {mi : Nat} {f : Field} {g depth
     | msg sub =>
       simp only [depthVal] at hdepth
       obtain ⟨wt, payload, body, hwt, hmsg, henc, hsub, hcons, hdec, hlen, hd⟩ :=
-        val_msg_facts hG (dis := dis) h1 h2 hg hwf (IH sub rfl) hdepth
+        val_msg_facts hG (dis := dis) hfind h1 h2 hg hwf (IH sub rfl) hdepth
       rw [henc, List.append_assoc]
       refine DecOK_known h1 h2 hwt hfind ?_ (hcons rest) (m' := .mk (acc.snoc f.num (.one (.msg (stripMsg dis sub)))) u) ?_
       · intro fuel hf
@@ -128,7 +129,7 @@ theorem elem_ok {S : Schema} (hG : GroupScanOK S) {mi : Nat} {f : Field} {g dept
     | msg sub =>
       simp only [depthVal] at hdepth
       obtain ⟨wt, payload, body, hwt, hmsg, henc, hsub, hcons, hdec, hlen, hd⟩ :=
-        val_msg_facts hG (dis := dis) h1 h2 hg hwf (IH sub rfl) hdepth
+        val_msg_facts hG (dis := dis) hfind h1 h2 hg hwf (IH sub rfl) hdepth
       rw [henc, List.append_assoc]
       refine DecOK_known h1 h2 hwt hfind ?_ (hcons rest)
         (m' := .mk (accWith acc f.num (pre.append (.cons (.msg (stripMsg dis sub)) .nil))) u) ?_
@@ -366,7 +367,7 @@ theorem entry_ok {S : Schema} (hG : GroupScanOK S) {mi : Nat} {f kf vf : Field} 
       | bytes b => simp [cwfVal, hm] at hvs
       | msg sub =>
         obtain ⟨wt, payload, body, hwt, hmsg, henc, hsub, hcons, hdec, hlen, hd2⟩ :=
-          val_msg_facts hG (dis := dis) (depth := depth - 1) (by omega) (by unfold maxValidNumber; omega)
+          val_msg_facts hG (dis := dis) (depth := depth - 1) (mi := f.sub) (by rw [hvn]; exact hv) (by omega) (by unfold maxValidNumber; omega)
             (by unfold defaultRecursionLimit; omega) hvs
             (IH sub (by simp; omega)) (by simp only [depthVal] at hdepth; omega)
         rw [henc, hvn]
@@ -400,5 +401,175 @@ theorem entry_ok {S : Schema} (hG : GroupScanOK S) {mi : Nat} {f kf vf : Field} 
       rw [set_accWith hacc _ _ (by rw [Vals.isNil_append]; simp [Vals.isNil])]
       simp [stripVal, stripMsg, stripFields, stripFVal, wfScalar_strip hks]
   · rw [List.append_assoc, consumeFieldValue_bytes, decBytes_enc' hlenb]; simp [Except.map]
+
+theorem valBEq_self_of_scalar {f : Field} {v : Val} (h : wfScalar f v = true) : valBEq v v = true := by
+  cases v <;> simp [wfScalar, valBEq] at h ⊢
+
+/-- a map field: all entries -/
+theorem entries_ok {S : Schema} (hG : GroupScanOK S) {mi : Nat} {f kf vf : Field} {depth : Int} {dis : Bool}
+    (hfind : (S.msg mi).find f.num = some f) (h1 : 1 ≤ f.num) (h2 : f.num ≤ maxValidNumber)
+    (hc : f.card = .map) (hkg : f.kind ≠ .group)
+    (hk : (S.msg f.sub).find 1 = some kf) (hv : (S.msg f.sub).find 2 = some vf)
+    {acc : Fields} {u rest : List Byte} {R : Msg} (hacc : acc.allLt f.num) :
+    ∀ (vs pre : Vals), cwfEntries S f kf vf vs = true →
+      (∀ k, keyFree k pre = true ∨ keyFree k vs = true) →
+      (depthVals vs : Int) ≤ depth →
+      (∀ sub, sizeOf sub < sizeOf vs → RoundMsg S sub) →
+      DecOK S mi depth dis (.mk (accWith acc f.num (pre.append (stripVals dis vs))) u) rest R →
+      DecOK S mi depth dis (.mk (accWith acc f.num pre) u) (encVals S f vs ++ rest) R
+  | .nil, pre, _, _, _, _, hrest => by
+    simpa [encVals, stripVals, Vals.append_nil] using hrest
+  | .cons v tl, pre, hwf, hK, hd, IH, hrest => by
+    simp only [cwfEntries, Bool.and_eq_true] at hwf
+    obtain ⟨⟨hwe, hkt⟩, hwt⟩ := hwf
+    obtain ⟨key, value, hveq, hks, hvs, hsz⟩ := cwfEntry_inv hwe
+    subst hveq
+    have hek : entryKey (.mk (.cons 1 (.one key) (.cons 2 (.one value) .nil)) []) = some key := by
+      simp [entryKey, Fields.get?]
+    simp only [hek] at hkt
+    have hself := valBEq_self_of_scalar hks
+    simp only [depthVals] at hd
+    simp only [encVals, List.append_assoc]
+    apply entry_ok hG hfind h1 h2 hc hkg hk hv pre hacc hwe _ (by omega)
+    · intro sub hs; apply IH; simp at hs ⊢; omega
+    · apply entries_ok hG hfind h1 h2 hc hkg hk hv hacc tl _ hwt _ (by omega)
+      · intro sub hs; apply IH; simp; omega
+      · rw [Vals.append_assoc]; simpa [stripVals] using hrest
+      · intro k
+        rw [keyFree_append]
+        by_cases hkk : valBEq k key = true
+        · have := valBEq_to_eq hkk; subst this; right; exact hkt
+        · rcases hK k with hl | hr
+          · left
+            simp only [hl, Bool.true_and]
+            simp [keyFree, stripVal, stripMsg, stripFields, stripFVal, entryKey, Fields.get?, wfScalar_strip hks, hkk]
+          · right
+            simp only [keyFree, Bool.and_eq_true] at hr; exact hr.2
+    · intro e k he hke
+      cases he
+      rw [hek] at hke; cases hke
+      rcases hK key with hl | hr
+      · exact hl
+      · simp [keyFree, hek, hself] at hr
+
+/-- all records of one field -/
+theorem fval_ok {S : Schema} (hG : GroupScanOK S) {mi : Nat} {f : Field} {g depth : Int} {dis : Bool}
+    (hfind : (S.msg mi).find f.num = some f) (h1 : 1 ≤ f.num) (h2 : f.num ≤ maxValidNumber)
+    (hg : g ≤ defaultRecursionLimit)
+    {acc : Fields} {u rest : List Byte} {R : Msg} (hacc : acc.allLt f.num)
+    (hfree : ∀ o, f.oneof = some o → oneofFree (S.msg mi) o acc = true)
+    {fv : FVal} (hwf : cwfFVal S g f fv = true) (hdepth : (depthFVal fv : Int) ≤ depth)
+    (IH : ∀ sub, sizeOf sub < sizeOf fv → RoundMsg S sub)
+    (hrest : DecOK S mi depth dis (.mk (acc.snoc f.num (stripFVal dis fv)) u) rest R) :
+    DecOK S mi depth dis (.mk acc u) (encFVal S f fv ++ rest) R := by
+  cases fv with
+  | one v =>
+    simp only [cwfFVal, Bool.and_eq_true, bne_iff_ne, ne_eq, Bool.not_eq_true'] at hwf
+    obtain ⟨⟨⟨hc1, hc2⟩, hv⟩, hz⟩ := hwf
+    simp only [encFVal]
+    simp only [depthFVal] at hdepth
+    apply one_ok hG hfind h1 h2 hg hc1 hc2 hv hz hacc hfree hdepth
+    · intro sub hs; subst hs; apply IH; simp; omega
+    · simpa only [stripFVal] using hrest
+  | many vs =>
+    simp only [cwfFVal, Bool.and_eq_true, Bool.not_eq_true'] at hwf
+    obtain ⟨hne, hwf⟩ := hwf
+    simp only [depthFVal] at hdepth
+    simp only [stripFVal] at hrest
+    have hsne : (stripVals dis vs).isNil = false := by rw [stripVals_isNil]; exact hne
+    have hIH : ∀ sub, sizeOf sub < sizeOf vs → RoundMsg S sub := by
+      intro sub hs; apply IH; simp; omega
+    cases hc : f.card with
+    | optional => simp [hc] at hwf
+    | implicit => simp [hc] at hwf
+    | required => simp [hc] at hwf
+    | repeated =>
+      simp only [hc, Bool.and_eq_true] at hwf
+      obtain ⟨hvs, hpk⟩ := hwf
+      simp only [encFVal, hne, Bool.not_false, Bool.and_true]
+      by_cases hp : (f.packed && f.kind.isNumeric) = true
+      · simp only [hp, if_true] at ⊢
+        simp only [Bool.and_eq_true] at hp
+        simp only [hp, and_self, if_true, decide_eq_true_eq] at hpk
+        have hm := isMessage_false_of_numeric hp.2
+        rw [stripVals_scalars hm dis vs hvs] at hrest
+        exact packed_ok hfind h1 h2 hc hp.2 hacc hne hvs hpk hrest
+      · simp only [hp]
+        have := vals_ok hG hfind h1 h2 hg hc hacc (u := u) (rest := rest) (R := R) (dis := dis) vs .nil hvs hdepth hIH
+        rw [accWith_nil, Vals.nil_append_eq, accWith_of_ne hsne] at this
+        exact this hrest
+    | map =>
+      simp only [hc, Bool.and_eq_true, beq_iff_eq] at hwf
+      obtain ⟨hkm, hwf⟩ := hwf
+      have hkg : f.kind ≠ .group := by rw [hkm]; decide
+      split at hwf
+      · rename_i kf vf hk hv
+        have hpk : (f.packed && f.kind.isNumeric && !vs.isNil) = false := by
+          simp [hkm, Kind.isNumeric]
+        simp only [encFVal, hpk, Bool.false_eq_true, if_false]
+        have := entries_ok hG hfind h1 h2 hc hkg hk hv hacc (u := u) (rest := rest) (R := R) (dis := dis)
+          vs .nil hwf (fun k => Or.inl (by simp [keyFree])) hdepth hIH
+        rw [accWith_nil, Vals.nil_append_eq, accWith_of_ne hsne] at this
+        exact this hrest
+      · simp at hwf
+
+/-- the record loop over a field list (the decoder-loop invariant) -/
+theorem fields_ok {S : Schema} (hG : GroupScanOK S) {mi : Nat} {g depth : Int} {dis : Bool}
+    (hg : g ≤ defaultRecursionLimit) {u rest : List Byte} {R : Msg} :
+    ∀ (fs : Fields) (lb : Nat) (acc : Fields), 1 ≤ lb → cwfFields S (S.msg mi) g lb fs = true →
+      acc.allLt lb →
+      (∀ o, oneofFree (S.msg mi) o acc = true ∨ oneofFree (S.msg mi) o fs = true) →
+      (depthFields fs : Int) ≤ depth →
+      (∀ sub, sizeOf sub < sizeOf fs → RoundMsg S sub) →
+      DecOK S mi depth dis (.mk (acc.append (stripFields dis fs)) u) rest R →
+      DecOK S mi depth dis (.mk acc u) (encFields S (S.msg mi) fs ++ rest) R
+  | .nil, lb, acc, _, _, _, _, _, _, hrest => by
+    simpa [encFields, stripFields, Fields.append_nil] using hrest
+  | .cons num fv tl, lb, acc, hlb, hwf, hacc, hO, hd, IH, hrest => by
+    simp only [cwfFields, Bool.and_eq_true, decide_eq_true_eq] at hwf
+    obtain ⟨⟨⟨hl, hmax⟩, hf⟩, htl⟩ := hwf
+    cases hfind : (S.msg mi).find num with
+    | none => simp [hfind] at hf
+    | some f =>
+      simp only [hfind, Bool.and_eq_true] at hf
+      obtain ⟨hfv, hone⟩ := hf
+      have hn := MsgD.find_num_eq hfind
+      subst hn
+      simp only [depthFields] at hd
+      simp only [encFields, hfind, List.append_assoc]
+      have hacc' : acc.allLt f.num := Fields.allLt_mono hl hacc
+      have hfree : ∀ o, f.oneof = some o → oneofFree (S.msg mi) o acc = true := by
+        intro o ho
+        rcases hO o with h | h
+        · exact h
+        · simp [oneofFree, hfind, ho] at h
+      apply fval_ok hG hfind (by omega) hmax hg hacc' hfree hfv (by omega)
+      · intro sub hs; apply IH; simp; omega
+      · apply fields_ok hG hg tl (f.num + 1) _ (by omega) htl (Fields.allLt_snoc (by omega) _ hacc') _ (by omega)
+        · intro sub hs; apply IH; simp; omega
+        · rw [Fields.snoc_append]; simpa [stripFields] using hrest
+        · intro o
+          rw [oneofFree_snoc]
+          by_cases ho : f.oneof = some o
+          · right; simpa [ho] using hone
+          · rcases hO o with h | h
+            · left; simp [h, oneofFree, hfind, ho]
+            · right; simp only [oneofFree, Bool.and_eq_true] at h; exact h.2
+
+/-- **the round trip for every message** (given the wire-level group facts) -/
+theorem roundMsg_all {S : Schema} (hG : GroupScanOK S) : ∀ (n : Nat) (m : Msg), sizeOf m ≤ n → RoundMsg S m
+  | 0, m, h => by cases m; simp at h
+  | n + 1, .mk fs unk, h => by
+    intro mi g depth dis hg hwf hd
+    simp only [cwfMsg, Bool.and_eq_true] at hwf
+    simp only [depthMsg] at hd
+    simp only [encMsg, stripMsg]
+    apply fields_ok hG hg fs 1 .nil (Nat.le_refl _) hwf.1 trivial (fun o => Or.inl rfl) (by omega)
+    · intro sub hs; apply roundMsg_all hG n; simp at h; omega
+    · have := unk_loop S mi depth dis g hg _ unk (stripFields dis fs) [] hwf.2
+      simpa using this
+
+theorem roundMsg {S : Schema} (hG : GroupScanOK S) (m : Msg) : RoundMsg S m :=
+  roundMsg_all hG (sizeOf m) m (Nat.le_refl _)
 
 end Pb
